@@ -114,6 +114,14 @@ def special_forms():
         ("text", "t0", {"label": "T"}), ("calculate", "c0", {"calculation": "${t0} + 1", "trigger": "${t0}"}),
         ("begin group", "ga", {"label": "A"}, [("text", "comment", {"label": "C"})]),
         ("begin group", "gb", {"label": "B"}, [("text", "comment", {"label": "C"}), ("background-geopoint", "bg", {"trigger": "${t0}"})])]), {}))
+    # cell values made of several words (appearances, parameters, multi-word types): word order in the output may not depend on the hash seed
+    out.append(("many-word-appearances", gen.simple_form([
+        ("begin group", "tl", {"label": "TL", "appearance": "table-list w4 no-collapse compact minimal"}, [("select_one l1", "t1", {"label": "a"}), ("select_one l1", "t2", {"label": "b"})]),
+        ("begin repeat", "tr", {"label": "TR", "appearance": "table-list zeta alpha mid"}, [("select_multiple l1", "t3", {"label": "c"})]),
+        ("begin group", "fl", {"label": "FL", "appearance": "field-list w8 no-collapse custom-a custom-b"}, [("text", "t4", {"label": "d", "appearance": "multiline w3 numbers thousands-sep"})]),
+        ("select_one l1", "s9", {"label": "S", "appearance": "minimal quick w2 horizontal-compact", "parameters": "randomize=true seed=3"}),
+        ("range", "r9", {"label": "R", "parameters": "start=1 end=9 step=2", "appearance": "vertical no-ticks picker"})],
+        choices={"l1": [{"name": "x", "label": "X"}, {"name": "y", "label": "Y"}]}), {}))
     for v in range(3):
         rows = [("text", "a", {"label": "A"}), ("text", "b", {"label": "B"})]
         for k in range(24):
@@ -344,6 +352,59 @@ def run_shard(ctx):
         if not (outs[0] == outs[1] == outs[2]):
             ctx.viol(f"regeneration:outcome-changes-after-refusal:{name}", f"{name}: successive to_xml() calls on one survey give {[o[0] for o in outs]}: {outs[0][1] if outs[0][0] != 'xform' else ''!s:.150}",
                      common.witness(form, case=name, history="to_xml x3 on a survey that is refused"))
+    # -- pass 4c: the file at a path replaced by another form of the same length with its timestamp preserved (rsync -t, cp -p, archive
+    # extraction): a conversion depends on what the path holds now, not on what was converted from it earlier in this process
+    import shutil
+    import tempfile
+    from pyxform.xls2xform import xls2xform_convert
+    pdir = tempfile.mkdtemp(prefix="verif_c14_", dir=tmpdir if tmpdir and os.path.isdir(tmpdir) else None)
+    try:
+        for k, ext in enumerate(("md", "csv", "md", "csv")):
+            texts = []
+            for word, typ in (("alpha", "text"), ("bravo", "note")):
+                sheets = {"survey": (["type", "name", "label"], [[typ, f"q_{word}", f"Label {word} {k}"], ["integer", "n", "N"]]),
+                          "settings": (["form_title", "form_id"], [[f"T {word}", f"id_{word}"]])}
+                texts.append(render.render(sheets, ext))
+            if len(texts[0].encode()) != len(texts[1].encode()):
+                continue
+            path = os.path.join(pdir, f"swap{k}.{ext}")
+            def by_path(pth):
+                if k < 2:
+                    o_ = drive.call_convert(pth)
+                    return o_.xform if o_.ok else o_.brief()
+                out_ = os.path.join(os.path.dirname(pth), f"swap{k}.xml")
+                xls2xform_convert(xlsform_path=pth, xform_path=out_, validate=False, pretty_print=False)
+                with open(out_, encoding="utf-8") as fh_:
+                    got_ = fh_.read()
+                os.unlink(out_)
+                return got_
+            alone = []
+            for j_, t in enumerate(texts):  # reference: each text converted by the same route from a path of its own (same file name, other folder)
+                os.mkdir(os.path.join(pdir, f"ref{k}_{j_}"))
+                rp = os.path.join(pdir, f"ref{k}_{j_}", f"swap{k}.{ext}")
+                with open(rp, "w", encoding="utf-8") as fh:
+                    fh.write(t)
+                alone.append(by_path(rp))
+            seen = []
+            with open(path, "w", encoding="utf-8") as fh:
+                fh.write(texts[0])
+            st = os.stat(path)
+            seen.append(by_path(path))
+            for turn in (1, 0, 1):
+                with open(path, "w", encoding="utf-8") as fh:
+                    fh.write(texts[turn])
+                os.utime(path, ns=(st.st_atime_ns, st.st_mtime_ns))
+                ok = by_path(path) == alone[turn]
+                ctx.ctr("digest_comparisons")
+                ctx.ctr("path_rewritten_cases")
+                ctx.case(sig=f"path-rewritten|{k}|{ext}|{turn}|{hs}")
+                if not ok:
+                    ctx.viol(f"history:path-content-replaced:{ext}:stale-result", f"{os.path.basename(path)} was rewritten with another form of the same size and its old timestamp; converting the path "
+                             f"{'through xls2xform_convert ' if k >= 2 else ''}does not give the form the file holds now", {"klass": "path-rewritten", "ext": ext, "texts": texts})
+                    break
+            os.unlink(path)
+    finally:
+        shutil.rmtree(pdir, ignore_errors=True)
     # -- pass 5: threads
     container_thread_pass(ctx, hs)
     thread_pass(ctx, batch, base, hs, inject=(ctx.tier == "thorough"))
